@@ -7,10 +7,13 @@ From Incr.Proofs Require Import Pres FrameStatus FrameRead Reads.
    Any operation of the API other than stabilise — variable writes of all five kinds, node and bind
    construction, new observers, subscriptions, cutoff changes, handle drops, height reconfiguration —
    leaves the read of every observer exactly as it was, except for the one observer the operation
-   itself disallows or drops.  (The observer must exist and observe an existing node.) *)
+   itself disallows or drops.  (The observer must exist and observe an existing node.)  The
+   dependency surgery of the expert API is left out: it belongs inside a stabilisation (debug builds
+   refuse it elsewhere), and a release build that invalidates an expert node from top level does
+   change reads on the spot. *)
 Theorem C07_reads_move_only_at_stabilise :
   forall fuel st op s o ob,
-    op <> OpStabilise -> op_target op <> Some o ->
+    op <> OpStabilise -> expert_op op = false -> op_target op <> Some o ->
     obss s !! o = Some ob -> is_Some (nodes s !! o_observing ob) ->
     Forall (fun e => read_result e.2 o = read_result s o) (run fuel [op] st s).
 Proof. exact run_one_read_frame. Qed.
